@@ -402,6 +402,66 @@ def partialShortcutPathG (E : PsEnv σ) (fixed : Bool) (u : Nat → Float) (maxS
     let maxEmpty := if maxEmpty = 0 then path.length else maxEmpty
     psLoopG E fixed u rangeRatio snap maxEmpty maxSteps 0 0 path false
 
+/-- the loop with the repair proposed in notes/C17-fix-F170.diff: the two sampled points are put in path order
+BEFORE `checkMotion` is called, so the motion that is validated is the motion that is spliced in (the tree's
+code validates `(s0, s1)` in SAMPLING order and splices `(earlier, later)`: for a direction-sensitive
+validator the spliced motion may be the reverse of the validated one — finding F170) -/
+def psLoopOrd (E : PsEnv σ) (u : Nat → Float) (rangeRatio snap : Float) (maxEmpty : Nat) :
+    (fuel i nochange : Nat) → List σ → Bool → Option (List σ × Bool)
+  | 0, _, _, st, res => some (st, res)
+  | fuel + 1, i, nochange, st, res =>
+    if nochange < maxEmpty then
+      let ds := (cumDistsFrom E.dist 0.0 st).toArray
+      let back := ds[ds.size - 1]!
+      let threshold := back * snap
+      let rd := rangeRatio * back
+      let distTo0 := (back - 0.0) * u (2 * i) + 0.0
+      let (pos0, idx0) := psSelectG true ds distTo0 threshold
+      let lo1 := fmax 0.0 (distTo0 - rd)
+      let hi1 := fmin (distTo0 + rd) back
+      let distTo1 := (hi1 - lo1) * u (2 * i + 1) + lo1
+      let (pos1, idx1) := psSelectG true ds distTo1 threshold
+      if psSkip pos0 idx0 pos1 idx1 then psLoopOrd E u rangeRatio snap maxEmpty fuel (i + 1) (nochange + 1) st res
+      else
+        let pt (pos : Nat) (idx : Bool) (distTo : Float) : Option σ :=
+          if idx then st[pos]? else
+            match st[pos]?, st[pos + 1]?, ds[pos]?, ds[pos + 1]? with
+            | some a, some b, some da, some db => some (E.interp a b ((distTo - da) / (db - da)))
+            | _, _, _, _ => none
+        match pt pos0 idx0 distTo0, pt pos1 idx1 distTo1 with
+        | some s0, some s1 =>
+          -- ordering step FIRST, then `checkMotion` in path order (proposed fix F170)
+          let (pos0, idx0, s0, pos1, idx1, s1) :=
+            if pos0 > pos1 then (pos1, idx1, s1, pos0, idx0, s0) else (pos0, idx0, s0, pos1, idx1, s1)
+          if E.cm s0 s1 then
+            let sta := st.toArray
+            let p0 : Option Float := if idx0 then some 0.0 else (st[pos0 + 1]?).map fun x => E.dist s0 x
+            let p1 : Option Float := if idx1 then some 0.0 else (st[pos1]?).map fun x => E.dist x s1
+            match p0, p1 with
+            | some c0, some c1 =>
+              match psAlong E.dist sta c0 (pos0 + 1) (pos1 - (pos0 + 1)) with
+              | some along =>
+                let along := along + c1
+                if along < E.dist s0 s1 then
+                  psLoopOrd E u rangeRatio snap maxEmpty fuel (i + 1) (nochange + 1) st res
+                else
+                  match psSplice st pos0 idx0 s0 pos1 idx1 s1 with
+                  | some st' => psLoopOrd E u rangeRatio snap maxEmpty fuel (i + 1) 1 st' true
+                  | none => none
+              | none => none
+            | _, _ => none
+          else psLoopOrd E u rangeRatio snap maxEmpty fuel (i + 1) (nochange + 1) st res
+        | _, _ => none
+    else some (st, res)
+
+def partialShortcutPathOrd (E : PsEnv σ) (u : Nat → Float) (maxSteps maxEmpty : Nat) (rangeRatio snap : Float)
+    (path : List σ) : Option (List σ × Bool) :=
+  if path.length < 3 then some (path, false)
+  else
+    let maxSteps := if maxSteps = 0 then path.length else maxSteps
+    let maxEmpty := if maxEmpty = 0 then path.length else maxEmpty
+    psLoopOrd E u rangeRatio snap maxEmpty maxSteps 0 0 path false
+
 /-- `partialShortcutPath` as it is in the tree (since fix f9a435dd6: snap tests use `<=`) -/
 def partialShortcutPath (E : PsEnv σ) (u : Nat → Float) (maxSteps maxEmpty : Nat) (rangeRatio snap : Float)
     (path : List σ) : Option (List σ × Bool) := partialShortcutPathG E true u maxSteps maxEmpty rangeRatio snap path
